@@ -434,6 +434,19 @@ pub fn conv_coord(k: Key, flip: bool, swap: bool) -> Key {
 	}
 	(z, x, y)
 }
+/// storage class of the `tile_data` of this row in variant `variant`: 0 = BLOB (a tile); 1 TEXT, 2 NULL, 3 INTEGER,
+/// 4 REAL (placeholder rows, not tiles: today's reader answers None and its stream skips them); 5 = zeroblob(7);
+/// only variants >= 100 (oracle-only worlds) use class 5
+pub fn mbx_class(k: &Key, variant: u64) -> u64 {
+	let h = (k.1 as u64).wrapping_mul(2654435761).wrapping_add((k.2 as u64).wrapping_mul(40503)).wrapping_add(k.0 as u64 * 97).wrapping_add(variant * 131);
+	let h = (h ^ (h >> 13)).wrapping_mul(0x9E3779B97F4A7C15) >> 20;
+	if h % 4 != 0 {
+		0
+	} else {
+		1 + (h / 4) % if variant >= 100 { 5 } else { 4 }
+	}
+}
+
 /// An mbtiles file with the freedoms SQLite and the MBTiles spec leave open, seeded by `variant`:
 /// `tiles` as a plain table / a VIEW over map + images / WITHOUT ROWID / with extra columns, with or without an index,
 /// columns declared `integer`/`blob` or without a type, rows in random order, and for a few rows `tile_data` stored as
@@ -472,8 +485,9 @@ pub fn write_mbx(path: &Path, tiles: &BTreeMap<Key, Blob>, fmt: u32, comp: u32, 
 	}
 	let mut classes = String::new();
 	for (n, (k, b)) in rows.iter().enumerate() {
+		let _ = n;
 		let row = ((1u64 << k.0) - 1 - k.2 as u64) as u32;
-		let class = if n > 0 && r.chance(1, 4) { r.range(1, 6) } else { 0 };
+		let class = mbx_class(k, variant);
 		classes.push(char::from(b'0' + class as u8));
 		use rusqlite::types::Value as V;
 		let data: V = match class {
@@ -641,6 +655,11 @@ impl World {
 				if s.comp == 0 && (bk == "versatiles" || bk == "pmtiles" || bk == "vtx") {
 					tiles.retain(|_, v| *v != EMPTY_ID);
 				}
+				// placeholder rows (tile_data not a BLOB) of an mbx file are not tiles
+				if bk.starts_with("mbx") {
+					let variant: u64 = bk[3..].parse().unwrap_or(0);
+					tiles.retain(|k, _| mbx_class(k, variant) == 0 || mbx_class(k, variant) == 5);
+				}
 				// a converter leaf serves the source tile of (z,x,y) at the transformed coordinate
 				if let Some((flip, swap)) = conv_flags(&s.kind) {
 					tiles = tiles.into_iter().map(|(k, v)| (conv_coord(k, flip, swap), v)).collect();
@@ -713,6 +732,15 @@ pub fn rpn_to_vpl(rpn: &str) -> Option<String> {
 		let (h, rest) = tok.split_at(1);
 		match h {
 			"L" => st.push(format!("from_container filename=\"s{rest}\"")),
+			"D" if rest.starts_with('x') => {
+				st.push(match rest {
+					"xk1" => "from_debug Format=pbf".to_string(),
+					"xk2" => "from_debug format=pbf Fast=true".to_string(),
+					"xk3" => "from_debug format=pbf fast_=true".to_string(),
+					"xk4" => "from_debug format=pbf FORMAT=png".to_string(),
+					_ => "from_container filename=\"s0\" FileName=\"s0\"".to_string(),
+				});
+			}
 			"D" => {
 				let fast = rest.ends_with('f');
 				let code = rest.trim_end_matches('f');
@@ -725,6 +753,15 @@ pub fn rpn_to_vpl(rpn: &str) -> Option<String> {
 				};
 				st.push(format!("from_debug format={name}{}", if fast { " fast=true" } else { "" }));
 			}
+			"U" if rest.starts_with('x') => {
+				let p = st.pop()?;
+				let bad = match rest {
+					"xk1" => "Layer_Name=\"L\"",
+					"xk2" => "layer_name=\"L\" layername=\"L\"",
+					_ => "layer_name=\"L\" ID_FIELD_TILES=\"id\"",
+				};
+				st.push(format!("{p} | vectortiles_update_properties data_source_path=\"data.csv\" {bad} id_field_tiles=\"id\" id_field_data=\"id\""));
+			}
 			"U" => {
 				let p = st.pop()?;
 				st.push(format!(
@@ -734,6 +771,20 @@ pub fn rpn_to_vpl(rpn: &str) -> Option<String> {
 			"Z" => {
 				let p = st.pop()?;
 				let (a, b) = rest.split_once(':')?;
+				if a.starts_with("xk") {
+					// near-miss parameter names: other case, trailing underscore, prefix, next to the correct one, look-alike
+					let bad = match a {
+						"xk1" => "Max=3",
+						"xk2" => "MIN=1",
+						"xk3" => "min_=1",
+						"xk4" => "mi=1",
+						"xk5" => "min=1 Min=2",
+						"xk6" => "max=9 maxx=3",
+						_ => "m\u{456}n=1",
+					};
+					st.push(format!("{p} | filter_zoom {bad}"));
+					continue;
+				}
 				let mut s = format!("{p} | filter_zoom");
 				for (k, v) in [("min", a), ("max", b)] {
 					match v {
@@ -761,6 +812,11 @@ pub fn rpn_to_vpl(rpn: &str) -> Option<String> {
 						"xt" => "bbox=[0,0,20,20,abc]".to_string(),
 						"xn" => "bbox=[0,0,abc,20]".to_string(),
 						"xs" => "bbox=5".to_string(),
+						"xk1" => "BBox=[0,0,20,20]".to_string(),
+						"xk2" => "bbox=[0,0,20,20] BBox=[0,0,10,10]".to_string(),
+						"xk3" => "bbox_=[0,0,20,20]".to_string(),
+						"xk4" => "bb=[0,0,20,20]".to_string(),
+						"xk5" => "bbox=[0,0,20,20] Bbox=[0,0,20,20]".to_string(),
 						_ => "bbox=[1,2,3]".to_string(),
 					};
 					st.push(format!("{p} | filter_bbox {arg}"));
